@@ -31,7 +31,7 @@ def run(ctx):
                 '{(1.5pi,pi/24),(1.5pi,pi/12),(1.5pi,pi/4),(2.55,pi/2)}: good-cycle vector, all-cycle vector and the '
                 "Cycles container's is_good flags vs the model (block hashes); random series with random/block/all-true "
                 'masks as explicit cases; non-trivial = at least one wrap' % (min(lengths), max(lengths)))
-    ctx.proof(extra=['props/Prop_Tie_Cycles.v'])  # translation tie: program regenerated from the source + refinement theorems
+    ctx.proof(extra=['props/Prop_Tie_Cycles.v', 'props/Prop_Tie_Cyclesobj.v'])  # translation ties: programs regenerated from the source + refinement theorems (Cycles.__init__ computes the container flags)
     f12, f13, bad = cvx.enumerate_domain(ctx, lengths, CFGS)
     ctx.exhaustive = True
     report(ctx, f13)
